@@ -464,6 +464,9 @@ def gen_units(world):
             sc = b.get("scorer")
             sc_ok = (sc is P["scorer"]) if scorer_given else (isinstance(sc, Tok) and sc.name.endswith("_DEFAULT_SCORER"))
             out2.append(("options-forwarded-to-the-search", ["C14", "C13", "C01"], And(bool(fw), fwz, sc_ok)))
+            # C11 / C10: everything behind the entry point (labels, patterns, subject) works on the NORMALISED text
+            out2.append(("text-reaches-the-search-normalised", ["C11", "C10"],
+                         isinstance(b.get("txt"), UTerm) and b["txt"].same(UTerm("preprocess", [P["txt"]], "str"))))
             same_stream = isinstance(r, list) and len(r) == len(stream) and all(x is y for x, y in zip(r, stream))
             out2.append(("yields-every-candidate-in-order", ["C14", "C13", "C15"], same_stream))
             lt = P["latent_time"]
@@ -480,7 +483,7 @@ def gen_units(world):
                                  And(Implies(lt, path_latent and ok_on), Implies(Not(lt), (not path_latent) and ok_off))))
             return out2
         return FuncUnit("ctparse.ctparse_gen[n=%d,%s,%s]" % (n, "ts" if ts_given else "ts omitted", "scorer" if scorer_given else "default scorer"),
-                        ["ctparse.ctparse_gen"], ["C01", "C03", "C06", "C09", "C13", "C14", "C15", "C12"], setup, call, ens,
+                        ["ctparse.ctparse_gen"], ["C01", "C03", "C06", "C09", "C10", "C11", "C13", "C14", "C15", "C12"], setup, call, ens,
                         prop_map={"safety": ["C01"], "frame": ["C12"]})
     for n in (0, 2):
         for tg in (True, False):
